@@ -4,3 +4,5 @@ open IQE.Props.C42
 #print axioms C42_mem_iff_collected
 #print axioms C42_workers_bounds
 #print axioms C42_workers_never_exceeds
+#print axioms C42_workers_gen_bounds
+#print axioms C42_workers_gen_eq_model
